@@ -1,7 +1,7 @@
 (* Props/C02.v — property theorems only.  C02: height bounds, borehole cap, unmet-design policy, exception discipline. *)
 From Coq Require Import ZArith QArith Qabs List.
 From GHE Require Import Base.QUtil gen.Src Model.Search Proof.SearchP.
-From GHE Require Import Model.RowSearch Proof.RowSearchP.
+From GHE Require Import Model.RowSearch Proof.RowSearchP Proof.DomainsP.
 Import ListNotations.
 Open Scope Z_scope.
 
@@ -112,6 +112,13 @@ Theorem C02_rowwise_old_code_refuted :
   (exists r, rw_search false o_old2 5 10 (5 # 4) false 3 = Ok r /\ rw_spec r = None).
 Proof. exact (conj rw_old_none_selected rw_old_no_specifier). Qed.
 Print Assumptions C02_rowwise_old_code_refuted.
+
+(* "the largest allowed candidate": the near-square candidate list (ring count regenerated from design.py on every run) ends with the
+   largest square grid that fits the side - it fits, and one more ring would not *)
+Theorem C02_near_square_largest_candidate : forall length b : Q, (0 < b)%Q ->
+  ((near_square_n length b - 1) * b <= length)%Q /\ (length < near_square_n length b * b)%Q.
+Proof. intros length b Hb; split; [exact (near_square_fits length b Hb) | exact (near_square_largest length b Hb)]. Qed.
+Print Assumptions C02_near_square_largest_candidate.
 
 (* non-vacuity *)
 Example C02_nonvacuous_large :
